@@ -195,6 +195,21 @@ impl Block {
         &source[self.content_bytes_range.clone()]
     }
 
+    /// Returns the 1-based line number in the source of the content line with the given 0-based
+    /// `content_line_index`, and the number of bytes that precede the content on that line.
+    ///
+    /// The content starts where the comment with the start tag ends, which is not necessarily on
+    /// the start tag's line (multi-line comments) nor at the beginning of a line.
+    pub(crate) fn content_line_position(&self, content_line_index: usize) -> (usize, usize) {
+        let content_start = &self.content_position_range.start;
+        let character_offset = if content_line_index == 0 {
+            content_start.character.saturating_sub(1)
+        } else {
+            0
+        };
+        (content_start.line + content_line_index, character_offset)
+    }
+
     /// Returns the block's severity.
     pub(crate) fn severity(&self) -> anyhow::Result<BlockSeverity> {
         self.attributes
